@@ -126,6 +126,24 @@ inductive FilterRule where
   | unknown
 deriving DecidableEq, Repr, Inhabited
 
+/-- C05 hand-off: where deduplicateWatchEvents acquires the single dedup map from -/
+inductive MapAcquire where
+  | emptyOrCh   -- `select { case m = <-empty: case m = <-ch: … }`
+  | unknown
+deriving DecidableEq, Repr, Inhabited
+
+/-- C05 hand-off: where deduplicateWatchEvents sends the map after a batch -/
+inductive DedupRoute where
+  | emptyIffEmpty   -- `if len(m) == 0 { send empty; continue }` … drain … `send ch`
+  | unknown
+deriving DecidableEq, Repr, Inhabited
+
+/-- C05 hand-off: where deliverDeduplicatedEvents sends the map after takeOne -/
+inductive DeliverRoute where
+  | chIffNonEmpty   -- `if len(m) > 0 { send ch } else { send empty }`
+  | unknown
+deriving DecidableEq, Repr, Inhabited
+
 /-- C19: the public metadata mutators whose clone-before-write shape is regenerated
     (finalizer.go Add/Remove/Set, internal/kv/kv.go Set/Delete/Do) -/
 inductive Mutator where
